@@ -110,7 +110,12 @@ def enumerate_faults(data, wmap, e, seed, max_len_all_prefixes=256, max_len_all_
     for idx, (s, en, kind, w, path, info) in enumerate(wmap):
         if kind in CTRL_KINDS:
             info = info or {}
-            for v in ctrl_values(kind, w, info.get("limit"), info.get("known")):
+            vals = ctrl_values(kind, w, info.get("limit"), info.get("known"))
+            if kind in ("counter", "sizer"):
+                # counts tied to what is left of the input: the largest a "count <= remaining bytes" guard lets through
+                rest = n - en
+                vals = vals + [v for v in (rest, rest + 1, rest // 2, rest // 4) if 0 < v < (1 << (8 * w)) and v not in vals]
+            for v in vals:
                 ctrl.append({"k": "ctrl", "at": s, "w": w, "v": v, "e": e, "kind": kind})
     if len(ctrl) > max_ctrl:
         ctrl = r.sample(ctrl, max_ctrl)
